@@ -207,7 +207,8 @@ class C17(Prop):
                    "miniapps/esl-translate.c (its main() set-up is replayed by the harness: option table, -c, -m/-M); "
                    "GetTranslation/IsInitiator on codes >= Kp are driven wherever the model says the loop never dereferences them (behind a gap, * or ~: translation_total); the inputs the model says fault "
                    "(a code >= Kp reached by the loop; DecodeDigicodon outside its bounds: decode_digicodon_bounds) are outside the contracts and not run against the code, where an ASan death would count as a violation",
-                   "esl-translate's main(): command-line parsing, file opening and the output of the records with esl_sqio_Write are C13's / C02's business; the harness collects the records in wrk->orf_block",
+                   "esl-translate's main(): command-line parsing, file opening and the output of the records with esl_sqio_Write are C13's / C02's business; the harness collects the records in wrk->orf_block, or (out=1) leaves it NULL so that ProcessOrf prints them through esl_sqio_Write to a memory stream: "
+                   "the FASTA text (name, description line, 60 residues per line) is compared exactly with the model's fastaOrf and with an independent rendering in the monitor (tied only, no theorem)",
                    "esl_gencode_Read: line splitting + the five anchored regular expressions are modelled by matchLine (total by construction) and tied by exact comparison on byte-level damaged files (readm: flips, "
                    "insertions, deletions, truncation, duplicated / swapped lines, NUL / high bytes / CR / tab / form feed)",
                    "esl_sqio_ReadWindow delivers windows of the strand in reading order with a 2-residue context (C04); the harness builds those windows itself",
@@ -313,6 +314,10 @@ class C17(Prop):
                 for m, M in ((0, 0), (1, 0), (0, 1)):
                     for l in (0, 1):
                         ops.append(self.xlate_op(rg, 1, short, l=l, m=m, M=M, watson=wat, crick=cri, W=W, lw=60))
+                        ops.append(self.xlate_op(rg, 1, short, l=l, m=m, M=M, watson=wat, crick=cri, W=W, lw=60, out=1))
+        long_orf = [("long", "a 150-residue ORF", "ATG" + "GCT" * 149 + "TAA"), ("sixty", "", "ATG" + "AAA" * 59 + "TGA"), ("sixtyone", "", "ATG" + "AAA" * 60)]
+        ops.append(self.xlate_op(rg, 1, long_orf, l=20, m=0, M=0, watson=0, crick=0, W=0, lw=60, out=1))
+        ops.append(self.xlate_op(rg, 1, long_orf, l=20, m=1, M=0, watson=1, crick=0, W=1, lw=60, out=1))
         ops.append(self.xlate_op(rg, 1, short, l=0, m=1, M=1, watson=0, crick=0, W=0, lw=60))
         ops.append(self.xlate_op(rg, 7, short, l=0, m=0, M=0, watson=0, crick=0, W=0, lw=60))
         out.append({"name": "xlate-options", "sticky": 0, "ops": ops})
@@ -461,8 +466,9 @@ class C17(Prop):
         elif r < 0.4: d["crick"] = 1
         elif r < 0.45: d["watson"] = d["crick"] = 1
         d["W"] = 1 if rng.random() < 0.5 else 0
+        d["out"] = 1 if rng.random() < 0.3 else 0       # no ORF block: the records are printed (FASTA) as esl-translate prints them
         d.update(kw)
-        op = "xlate id=%(id)d l=%(l)d m=%(m)d M=%(M)d watson=%(watson)d crick=%(crick)d W=%(W)d lw=%(lw)d" % d
+        op = "xlate id=%(id)d l=%(l)d m=%(m)d M=%(M)d watson=%(watson)d crick=%(crick)d W=%(W)d lw=%(lw)d out=%(out)d" % d
         op += " n=%d" % len(seqs)
         for i, (nm, ds, dna) in enumerate(seqs):
             op += " name%d=%s desc%d=%s dna%d=%s" % (i, nm, i, ds.encode().hex() or "-", i, dna.encode().hex() or "-")
@@ -554,7 +560,7 @@ class C17(Prop):
         return "fault" if line.startswith("fault") else line
 
     def nontrivial(self, case, out):
-        return any((l.startswith("ok n=") and not l.startswith("ok n=0")) or l.startswith("ok tr=") or (l.startswith("ok w=") and " n=0" not in l) for l in out)
+        return any((l.startswith("ok n=") and not l.startswith("ok n=0")) or l.startswith("ok tr=") or (l.startswith("ok w=") and " n=0" not in l and " text=-" not in l) for l in out)
 
     def _monitor(self, ctx, case, out):
         prev_orf = None
@@ -612,6 +618,15 @@ class C17(Prop):
                     for (f, st, en, aa) in spec_orfs(codes, basic, ini, using, minlen, strands):
                         want.append((st, en, aa, "source=%s coords=%d..%d length=%d frame=%d desc=%s" % (src, st, en, len(aa), f, ds)))
                 toks = l.split()
+                if int(d.get("out", 0)):
+                    txt = "".join(">orf%d %s\n" % (k + 1, w_[3]) + "".join("".join(AMINO[x] for x in w_[2][p:p + 60]) + "\n" for p in range(0, len(w_[2]), 60))
+                                  for k, w_ in enumerate(want))
+                    hdr = "ok w=%d c=%d u=%d l=%d f=1 text=%s" % (0 if int(d["crick"]) else 1, 0 if int(d["watson"]) else 1, 1 if using else 0, minlen, txt.encode("latin1").hex() or "-")
+                    if l != hdr:
+                        got = unhex(toks[-1].split("=", 1)[1]).decode("latin1") if toks and toks[-1].startswith("text=") else l
+                        i = next((k for k in range(min(len(got), len(txt))) if got[k] != txt[k]), min(len(got), len(txt)))
+                        return Failure("monitor", "esl-translate prints %r where the specification has %r (offset %d; header %r)" % (got[max(0, i - 40):i + 40], txt[max(0, i - 40):i + 40], i, " ".join(toks[:6])))
+                    continue
                 hdr = "ok w=%d c=%d u=%d l=%d f=1 n=%d" % (0 if int(d["crick"]) else 1, 0 if int(d["watson"]) else 1, 1 if using else 0, minlen, len(want))
                 if " ".join(toks[:7]) != hdr:
                     return Failure("monitor", "esl-translate main loop: work state / ORF count %r, specification %r" % (" ".join(toks[:7]), hdr))
